@@ -232,7 +232,7 @@ def main(tier, replay=None):
 
     settings = {"gas": True, "backtrace": False, "unsafe_panic": False, "opt": "default", "casm": True}
     projects = PROJECTS_QUICK if tier == "quick" else PROJECTS_THOROUGH
-    per_project = 40 if tier == "quick" else 300
+    per_project = 40 if tier == "quick" else 200
     reps16 = 1 if tier == "quick" else 5
     jobs, descs, resolved = [], {}, {}
     for p in projects:
@@ -267,9 +267,11 @@ def main(tier, replay=None):
 
     stats = {"histories": 0, "ms": 0, "prefix_panics": 0, "panics": 0, "observables": set()}
     per = {}
+    distinct = set()
     for name, inp, outp, _ in jobs:
         s = collect(chk, descs[name], settings, outp, stats)
         per[name] = s["histories"]
+        distinct.update((name, sha(hist_key(h))) for h in read_ndjson(inp) if h.get("k") == "hist" and h["prefix"])
         rs = [r for r in read_ndjson(outp) if r.get("k") == "res"]
         if rs:
             chk.sample({"project": name, "history": hist_key(read_ndjson(inp)[2 + rs[-1]["id"]]),
@@ -296,8 +298,11 @@ def main(tier, replay=None):
         "histories_per_project": per,
         "projects": len(jobs),
         "observables": sorted(stats["observables"]),
-        "distinct_nontrivial": sum(1 for _ in all_h if _["prefix"]),
-        "distinct_nontrivial_rule": "generated histories with a non-empty prefix of unrelated queries",
+        "evaluations": stats["histories"],
+        "distinct_nontrivial": len(distinct),
+        "rule": "histories are enumerated by TLC from Assembly (threads x mode x entry x every ordered prefix of <= 3 "
+                "distinct unrelated queries) and sampled per project with the seed; distinct non-trivial = distinct "
+                "(project, history) pairs executed whose prefix is non-empty",
         "prefix_query_panics": stats["prefix_panics"],
         "model_agreement": {"agreed": agreed, "disagreed": disagreed},
     })
